@@ -805,9 +805,11 @@ theorem splitNotify_frame (cfg : Cfg) (v : VState) (s s' : Store) (t k off : Nat
   cases parentOf s t with
   | none =>
     simp only
-    exact ⟨(notify_frame cfg v s' _).1, (notify_frame cfg v s' _).2.1⟩
+    split
+    · exact ⟨(notify_frame cfg v s' _).1, (notify_frame cfg v s' _).2.1⟩
+    · exact ⟨(notify_frame cfg v s' _).1, (notify_frame cfg v s' _).2.1⟩
   | some p =>
-    simp only
+    simp only [Option.isNone_some, Bool.false_eq_true, false_and, if_false]
     have h1 := notify_frame cfg v s' (.inserted k)
     cases cfg.splitKeepsAfter with
     | true =>
